@@ -303,10 +303,17 @@ macro_rules! tag_or_none {
     };
 }
 
-fn hdr_field<T: MaybeDynSized<Header = multiboot2::TagHeader> + ?Sized>(t: &T, f: &str) -> Option<Value> {
+fn hdr_field<T: MaybeDynSized<Header = multiboot2::TagHeader> + ?Sized>(ctx: &Ctx, t: &T, f: &str) -> Option<Value> {
     match f {
         "typ" => Some(out::val(u32::from(t.header().typ) as u64, 4)),
         "size" => Some(out::val(t.header().size as u64, 4)),
+        // the generic byte views every typed view offers through MaybeDynSized
+        "as_bytes" => {
+            let b = t.as_bytes();
+            Some(json!({"k": "ref", "at": ctx.off(b.as_ptr()), "n": out::num(b.len()), "len": out::num(b.len())}))
+        }
+        "trait_payload" => Some(slicev(ctx, MaybeDynSized::payload(t))),
+        "as_ptr" => Some(json!({"k": "ref", "at": ctx.off(t.as_ptr()), "n": 0, "len": 0})),
         _ => None,
     }
 }
@@ -321,7 +328,7 @@ fn utf8res(ctx: &Ctx, r: Result<&str, std::str::Utf8Error>) -> Value {
 fn field(ctx: &Ctx, bi: Bi, kind: &str, f: &str) -> Value {
     macro_rules! common {
         ($t:expr) => {
-            if let Some(v) = hdr_field($t, f) {
+            if let Some(v) = hdr_field(ctx, $t, f) {
                 return v;
             }
         };
